@@ -54,9 +54,7 @@ def getVarintAux : Nat → Bytes → Option (Nat × Bytes)
   | _+1, [] => none
   | k+1, b :: bs =>
     if b.toNat < 128 then some (b.toNat, bs)
-    else match getVarintAux k bs with
-      | some (v, r) => some ((b.toNat - 128) + 128 * v, r)
-      | none => none
+    else (getVarintAux k bs).map (fun p => ((b.toNat - 128) + 128 * p.1, p.2))
 
 /-- `x |= uint64(b&0x7F) << shift` over at most 10 bytes: the value modulo `2^64`. -/
 def getVarint (bs : Bytes) : Option (Nat × Bytes) :=
